@@ -893,3 +893,90 @@ func RExclEnd(c *core.Ctx) {
 		c.OK("package regexp2 / no exclusive end is decremented by its caller", token.NoPos, "%d functions with an exclusive-end parameter, %d call sites examined", len(excl), sites)
 	}
 }
+
+// R-REPCAP: two nested group loops are one loop only where nothing is captured.
+// (?:X{a,b}){c,d} and X{ac,bd} match the same texts, but they run different
+// iterations: with a capture inside X the last capture (and the number of
+// captures) differs — (?:(a{1,2}){1,2}){2} on "aaaa" ends with group 1 = "a",
+// the merged loop with "aa".
+func RRepCap(c *core.Ctx) {
+	c.Rule("R-REPCAP", "in reduceRep the loop that multiplies the bounds of a group loop into its child has an exit (break) taken under a condition that asks whether the child contains a capture group (a call of a syntax function that looks for NtCapture below a node): nested group loops around a capture are not merged", 1)
+	p := c.P
+	syn := p.Pkg("syntax")
+	info := syn.TypesInfo
+	fd, _ := p.DeclOf(p.LookupFunc("syntax", "RegexNode.reduceRep"))
+	capK := p.LookupObj("syntax", "NtCapture")
+	if fd == nil || capK == nil {
+		c.Anchor("syntax.RegexNode.reduceRep / NtCapture")
+		return
+	}
+	c.Visit("syntax.(*RegexNode).reduceRep")
+	memo := map[*types.Func]bool{}
+	var looksForCapture func(fn *types.Func, depth int) bool
+	looksForCapture = func(fn *types.Func, depth int) bool {
+		if fn == nil || fn.Pkg() != syn.Types || depth > 2 {
+			return false
+		}
+		if v, ok := memo[fn]; ok {
+			return v
+		}
+		memo[fn] = false
+		d, _ := p.DeclOf(fn)
+		if d == nil || d.Body == nil {
+			return false
+		}
+		res := false
+		ast.Inspect(d.Body, func(x ast.Node) bool {
+			switch y := x.(type) {
+			case *ast.Ident:
+				if info.ObjectOf(y) == capK {
+					res = true
+				}
+			case *ast.CallExpr:
+				if cal := core.Callee(info, y); cal != nil && cal != fn && looksForCapture(cal, depth+1) {
+					res = true
+				}
+			}
+			return !res
+		})
+		memo[fn] = res
+		return res
+	}
+	found := false
+	var at token.Pos
+	ast.Inspect(fd.Body, func(x ast.Node) bool {
+		loop, ok := x.(*ast.ForStmt)
+		if !ok {
+			return true
+		}
+		at = loop.Pos()
+		ast.Inspect(loop.Body, func(y ast.Node) bool {
+			ifs, ok := y.(*ast.IfStmt)
+			if !ok {
+				return true
+			}
+			breaks := false
+			for _, st := range ifs.Body.List {
+				if br, ok := st.(*ast.BranchStmt); ok && br.Tok == token.BREAK {
+					breaks = true
+				}
+			}
+			if !breaks {
+				return true
+			}
+			ast.Inspect(ifs.Cond, func(z ast.Node) bool {
+				if call, ok := z.(*ast.CallExpr); ok && looksForCapture(core.Callee(info, call), 0) {
+					found = true
+				}
+				return true
+			})
+			return true
+		})
+		return false
+	})
+	if !at.IsValid() {
+		c.Anchor("the merging loop of reduceRep")
+		return
+	}
+	c.Check(found, "reduceRep / nested group loops around a capture are not merged", at, "no exit of the merging loop asks whether the child contains a capture: (?:(a{1,2}){1,2}){2} becomes (a{1,2}){2,4}, which matches the same text but ends with a different last capture of group 1 (and a different number of captures) than the pattern as written")
+}
